@@ -34,7 +34,7 @@ ENV = dict(os.environ)
 ENV.update({"CARGO_NET_OFFLINE": "true", "CARGO_TARGET_DIR": TARGET, "LC_ALL": "C"})
 
 GATE_RE = re.compile(r"\b(Admitted|admit|Axiom|Axioms|Parameter|Parameters|Conjecture|Conjectures|Hypothesis|Hypotheses|"
-                     r"Variable|Variables|Abort All)\b|Unset Guard|Guard Checking|bypass_check|type-in-type|"
+                     r"Variable|Variables|Abort All|Section|Context|Admit Obligations)\b|Unset Guard|Guard Checking|bypass_check|type-in-type|"
                      r"impredicative-set|Unset Universe Checking|Unset Positivity")
 
 
@@ -43,9 +43,14 @@ def log(msg):
 
 
 def sh(cmd, timeout=None, cwd=None, env=None, stdin=None, stdout=None):
-    return subprocess.run(cmd, cwd=cwd, env=env or ENV, timeout=timeout, stdin=stdin,
-                          stdout=stdout if stdout is not None else subprocess.PIPE,
-                          stderr=subprocess.STDOUT if stdout is None else subprocess.PIPE, text=True)
+    """run a build step; a step that exceeds its time limit is reported like a failed step (return code 124)"""
+    try:
+        return subprocess.run(cmd, cwd=cwd, env=env or ENV, timeout=timeout, stdin=stdin,
+                              stdout=stdout if stdout is not None else subprocess.PIPE,
+                              stderr=subprocess.STDOUT if stdout is None else subprocess.PIPE, text=True, errors="replace")
+    except subprocess.TimeoutExpired as e:
+        out = e.stdout if isinstance(e.stdout, str) else (e.stdout or b"").decode("utf-8", "replace")
+        return subprocess.CompletedProcess(cmd, 124, stdout=out + "\nTIMEOUT: %s did not finish within %s s" % (" ".join(cmd[:3]), timeout), stderr="")
 
 
 def file_hash(path):
@@ -87,7 +92,7 @@ def build_harness(profiles):
         t0 = time.time()
         args = ["cargo", "build", "--offline", "--quiet", "--profile", prof] if prof != "release" else \
                ["cargo", "build", "--offline", "--quiet", "--release"]
-        r = sh(args, cwd=HARNESS, timeout=1200)
+        r = sh(args, cwd=HARNESS, timeout=3600)
         if r.returncode != 0:
             raise Broken("harness-build", r.stdout[-4000:])
         bins[prof] = os.path.join(TARGET, prof, "ckc-probe")
@@ -102,7 +107,10 @@ def dump_and_gen(probe):
     if not (os.path.exists(dump) and os.path.exists(stamp) and open(stamp).read() == h):
         t0 = time.time()
         with open(dump + ".tmp", "w") as f:
-            r = subprocess.run([probe, "dump"], stdout=f, stderr=subprocess.PIPE, text=True, timeout=1200)
+            try:
+                r = subprocess.run([probe, "dump"], stdout=f, stderr=subprocess.PIPE, text=True, timeout=3600)
+            except subprocess.TimeoutExpired:
+                raise Broken("dump", "ckc-probe dump did not finish within 3600 s")
         if r.returncode != 0:
             raise Broken("dump", r.stderr[-4000:])
         os.replace(dump + ".tmp", dump)
@@ -124,7 +132,7 @@ def coq_makefile():
             raise Broken("coq_makefile", r.stdout)
 
 
-def coq_make(targets, timeout=3000):
+def coq_make(targets, timeout=7200):
     coq_makefile()
     t0 = time.time()
     r = sh(["make", "-j%d" % NPROC, "-f", "Makefile"] + targets, cwd=COQ, timeout=timeout)
@@ -176,7 +184,7 @@ def print_assumptions(prop, names):
         f.write("From CKC Require Import Props.%s.\n" % prop)
         for n in names:
             f.write('Goal True. idtac "@@ %s". Abort.\nPrint Assumptions %s.\n' % (n, n))
-    r = sh(["coqc", "-Q", COQ, "CKC", "-o", os.path.join(BUILD, "assume_%s.vo" % prop), tmp], cwd=BUILD, timeout=600)
+    r = sh(["coqc", "-Q", COQ, "CKC", "-o", os.path.join(BUILD, "assume_%s.vo" % prop), tmp], cwd=BUILD, timeout=1800)
     if r.returncode != 0:
         return 0, {"error": r.stdout[-2000:]}
     report = {}
@@ -248,7 +256,7 @@ def build_model():
     for f in (src_ml, src_mli, drv):
         shutil.copy(f, OCAML)
     r = sh(["bash", "-c", "ulimit -s unlimited; ocamlfind ocamlopt -O3 -w -a model.mli model.ml modelrun.ml -o modelrun"],
-           cwd=OCAML, timeout=1200)
+           cwd=OCAML, timeout=3600)
     if r.returncode != 0:
         raise Broken("model-compile", r.stdout[-4000:])
     with open(stamp, "w") as f:
@@ -321,6 +329,28 @@ def run_sharded(cmd, case_file, out_file, nlines, shards):
         raise Broken("runner", "%s: %s" % (" ".join(cmd), errs[0]))
 
 
+def sweep_domain_size(args):
+    """the number of cases `ckc-probe sweep` must report for these arguments (None when not computed here)"""
+    import math
+    a = dict(zip(args[0::2], args[1::2]))
+    k, alphabet = int(a["--k"]), a.get("--alphabet", "deck")
+    stride, offset = int(a.get("--stride", 1)), int(a.get("--offset", 0))
+    if alphabet == "deck":
+        n = math.comb(52, k)
+    elif alphabet == "deckblank":
+        n = math.comb(53 + k - 1, k)
+    elif alphabet == "deckblank_ordered":
+        n = 53 ** k
+    elif alphabet == "u16_ordered":
+        n = 65536 ** k
+    elif alphabet == "deckblank_invalid" and stride == 1:
+        return math.comb(53 + k - 1, k) - math.comb(52, k)
+    else:
+        return None
+    # cases c in 0..n with c % stride == offset
+    return (n - offset + stride - 1) // stride if offset < n else 0
+
+
 def sweep_family(fam, bins, modelrun, mismatches):
     """an exhaustive implementation-only family (harness/src/sweep.rs): the model's line for this projection is the
     constant fam["expect"] on every case of the domain BY THE THEOREM fam["theorem"], so only the implementation
@@ -336,12 +366,15 @@ def sweep_family(fam, bins, modelrun, mismatches):
         if fam.get("blank_case"):
             # the constant for cases holding a blank is read off the model on one such case
             mb = subprocess.run(["bash", "-c", "ulimit -s unlimited; exec \"$@\"", "x", modelrun, "--chk", "1" if prof == "chk" else "0"],
-                                input=fam["blank_case"] + "\n", stdout=subprocess.PIPE, text=True, timeout=600)
+                                input=fam["blank_case"] + "\n", stdout=subprocess.PIPE, text=True, timeout=1800)
+            if mb.returncode != 0 or not mb.stdout.strip():
+                raise Broken("runner", "modelrun gave no line for the blank case %s" % fam["blank_case"])
             cmd += ["--expect-blank", mb.stdout.strip()]
         r = subprocess.run(cmd, stdout=subprocess.PIPE, stderr=subprocess.PIPE, text=True)
         if r.returncode not in (0, 3):
             raise Broken("runner", "%s: %s" % (" ".join(cmd), r.stderr[-2000:]))
         bad = []
+        swept_seen = False
         for l in r.stdout.splitlines():
             if l.startswith("BAD "):
                 case, _, out = l[4:].partition(" => ")
@@ -351,16 +384,23 @@ def sweep_family(fam, bins, modelrun, mismatches):
             elif l.startswith("SWEPT "):
                 total = int(l.split()[1])
                 fam_mis += int(l.split()[3])
+                swept_seen = True
+        if r.returncode == 0:
+            want = sweep_domain_size(fam["sweep"])
+            if not swept_seen or total <= 0 or (want is not None and total != want):
+                raise Broken("runner", "%s: swept %s cases, expected %s" % (" ".join(cmd), total if swept_seen else "no SWEPT line", want))
         if bad:
             mr = subprocess.run(["bash", "-c", "ulimit -s unlimited; exec \"$@\"", "x", modelrun, "--chk", "1" if prof == "chk" else "0"],
-                                input="\n".join(c for c, _ in bad) + "\n", stdout=subprocess.PIPE, text=True, timeout=600)
+                                input="\n".join(c for c, _ in bad) + "\n", stdout=subprocess.PIPE, text=True, timeout=1800)
+            if mr.returncode != 0:
+                raise Broken("runner", "modelrun failed on the cases a sweep reported")
             mout = mr.stdout.splitlines()
             real = 0
             for k, (case, out) in enumerate(bad):
                 model = mout[k].strip() if k < len(mout) else fam["expect"]
                 if model != out:
                     real += 1
-                    if len(mismatches) < 20:
+                    if sum(1 for m in mismatches if not m.get("beyond")) < 20:
                         mismatches.append({"family": name, "profile": prof, "line": 0, "case": case, "implementation": out,
                                            "model": model, "pinned": True,
                                            "note": "exhaustive implementation-only sweep; the model's line is the constant '%s' "
@@ -413,13 +453,19 @@ def correspondence(prop, fams, bins, modelrun, work):
             model_out = os.path.join(work, "%s.%s.model" % (name, prof))
             run_sharded([bins[prof], "run"], case_file, impl_out, nlines, shards_impl)
             run_sharded([modelrun, "--chk", "1" if prof == "chk" else "0"], case_file, model_out, nlines, shards_model)
+            for side, outp in (("implementation", impl_out), ("model", model_out)):
+                with open(outp) as fo_:
+                    got = sum(1 for _ in fo_)
+                if got != nlines:
+                    raise Broken("runner", "family %s (%s, %s): %d result lines for %d cases" % (name, prof, side, got, nlines))
             same = subprocess.run(["cmp", "-s", impl_out, model_out]).returncode == 0
             if not same:
                 with open(case_file) as fc, open(impl_out) as fi, open(model_out) as fm:
                     for k, (c, a, b) in enumerate(zip(fc, fi, fm)):
                         if a != b and a.strip() != "NOT-RUN":
                             fam_mis += 1
-                            if len(mismatches) < 20:
+                            # separate caps: drift of a `beyond` family must never crowd out a real disagreement
+                            if sum(1 for m in mismatches if bool(m.get("beyond")) == bool(fam.get("beyond"))) < 20:
                                 mismatches.append({"family": name, "profile": prof, "line": k + 1, "case": c.strip(),
                                                    "implementation": a.strip(), "model": b.strip(),
                                                    "pinned": bool(fam.get("pinned")), "beyond": bool(fam.get("beyond"))})
@@ -609,9 +655,11 @@ def main(argv):
             # in the evidence, and no verdict
             drift = [m for m in all_mis if m.get("beyond")]
             mismatches = [m for m in all_mis if not m.get("beyond")]
-            if mismatches:
+            n_real = sum(s["mismatches"] for s in stats if not s.get("beyond"))
+            if mismatches or n_real:
                 broken.append(("correspondence", "%d disagreeing case(s), first: %s" % (
-                    sum(s["mismatches"] for s in stats if not s.get("beyond")), json.dumps(mismatches[0]))))
+                    n_real, json.dumps(mismatches[0]) if mismatches else "(in family %s)" % ", ".join(
+                        s["family"] for s in stats if s["mismatches"] and not s.get("beyond")))))
         except Broken as b:
             broken.append((b.stage, b.detail))
 
@@ -660,13 +708,16 @@ def main(argv):
             "replay_cmd": "./check %s --replay %s" % (prop, rpath),
         }
         write_json(rpath, rep)
+        def is_known(obj):
+            return any(kf["property"] == prop and kf.get("match") and kf["match"] in json.dumps(obj) for kf in known.get("findings", []))
+        # a listed known finding explains the run only when the correspondence is ALL that broke and every recorded
+        # disagreement is one of the listed inputs; anything else is a violation the file does not list
+        explained = bool(found) and not fresh and all(st == "correspondence" for st, _ in broken) \
+            and bool(mismatches) and all(is_known(m) for m in mismatches) \
+            and sum(s_["mismatches"] for s_ in stats if not s_.get("beyond")) == len(mismatches)
         if fresh:
             violations.append("VIOLATION property=%s replay=%s" % (prop, rpath))
-        elif not (found and not fresh):
-            violations.append("VIOLATION property=%s replay=%s no-failing-input-found" % (prop, rpath))
-        else:
-            # everything the search found is a listed known finding, but a proof/correspondence is broken:
-            # still not shown to hold
+        elif not explained:
             violations.append("VIOLATION property=%s replay=%s no-failing-input-found" % (prop, rpath))
 
     total_cases = sum(s["cases"] * len(s["profiles"]) for s in stats)
@@ -705,9 +756,6 @@ def main(argv):
     write_json(evidence_path, ev)
     for l in known_lines:
         print(l)
-    for f in known.get("findings", []):
-        if f["property"] == prop and not violations and not known_lines:
-            print("KNOWN-FINDING: property=%s %s" % (prop, f["what"]))
     if violations:
         for v in violations:
             print(v)
@@ -741,5 +789,22 @@ def do_replay(prop, path):
     return 0
 
 
+def guarded_main(argv):
+    """an unexpected failure of the machinery itself (a time limit of a sub-process, an unreadable output, ...) must not end
+    in a bare traceback: the property was not shown to hold, so it is reported as such, naming the internal error"""
+    try:
+        return main(argv)
+    except Exception:  # noqa: BLE001
+        import traceback
+        tb = traceback.format_exc()
+        sys.stderr.write(tb)
+        prop = next((a for a in argv[1:] if re.fullmatch(r"C\d\d", a)), "C00")
+        os.makedirs(os.path.join(ROOT, "replays"), exist_ok=True)
+        rpath = os.path.join(ROOT, "replays", "%s-internal-%s.json" % (prop, hashlib.sha256(tb.encode()).hexdigest()[:12]))
+        write_json(rpath, {"property": prop, "no_longer_checks": [{"stage": "internal", "detail": tb[-3000:]}], "failing_input": None})
+        print("VIOLATION property=%s replay=%s no-failing-input-found" % (prop, rpath))
+        return 1
+
+
 if __name__ == "__main__":
-    sys.exit(main(sys.argv))
+    sys.exit(guarded_main(sys.argv))
